@@ -72,6 +72,7 @@ type SpecFunc struct {
 	Ret    string
 	Body   *SExpr // nil => uninterpreted
 	Rec    bool
+	Macro  bool // expanded at the call site (may read the heap of the calling context)
 	Ghost  bool // ghost state: a heap component indexed by the (reference of the) argument
 	Pkg    string
 	File   string
@@ -97,7 +98,7 @@ type SpecFile struct {
 	Axioms    []*Axiom
 }
 
-var kwRe = regexp.MustCompile(`^(ghost|func|requires|ensures|assigns|invariant|loop|behaviour|behavior|spec|axiom|lemma|decreases|inline|trusted|overflow|nopanic|props|panics|assert|rec)\b`)
+var kwRe = regexp.MustCompile(`^(macro|ghost|func|requires|ensures|assigns|invariant|loop|behaviour|behavior|spec|axiom|lemma|decreases|inline|trusted|overflow|nopanic|props|panics|assert|rec)\b`)
 
 var sigRe = regexp.MustCompile(`^(\w+)\s*\(([^)]*)\)\s*(\S+)?\s*(?:=\s*(.*))?$`)
 
@@ -282,7 +283,7 @@ func ParseSpecFile(path, pkg string) (*SpecFile, error) {
 			default:
 				return nil, fail("loop clause must be invariant or decreases")
 			}
-		case "spec", "rec":
+		case "spec", "rec", "macro":
 			rec := false
 			if kw == "rec" {
 				rec = true
@@ -296,7 +297,7 @@ func ParseSpecFile(path, pkg string) (*SpecFile, error) {
 			if err != nil {
 				return nil, fail("%v", err)
 			}
-			s := &SpecFunc{Name: m[1], Params: ps, Ret: m[3], Pkg: pkg, File: path, Line: it.no, Text: rest, Rec: rec}
+			s := &SpecFunc{Name: m[1], Params: ps, Ret: m[3], Pkg: pkg, File: path, Line: it.no, Text: rest, Rec: rec, Macro: kw == "macro"}
 			if m[4] != "" {
 				e, err := parseSpecExpr(m[4])
 				if err != nil {
